@@ -13,13 +13,21 @@ pub fn check(r: &RunResult, rep: &mut Report) {
 	let atts = common::attempts(w);
 	for a in atts.iter() {
 		let (b, e) = match (&a.begin.ev, a.end.map(|e| &e.ev)) {
-			(Ev::AttemptBegin { snap: b, .. }, Some(Ev::AttemptEnd { snap: e, .. })) => (b.clone(), e.clone()),
+			(Ev::AttemptBegin { snap: b, .. }, Some(Ev::AttemptEnd { snap: e, .. })) => {
+				(b.clone(), e.clone())
+			}
 			_ => continue,
 		};
 		rep.nontrivial = true;
 		let phase = common::last_class_in(w, a);
 		let cert_idx = e.cert_idx.unwrap_or(0);
-		let kp = w.plan.config.certificates.get(cert_idx).and_then(|c| c.kp_reuse).unwrap_or(false);
+		let kp = w
+			.plan
+			.config
+			.certificates
+			.get(cert_idx)
+			.and_then(|c| c.kp_reuse)
+			.unwrap_or(false);
 		let kp_s = if kp { "kp_reuse" } else { "no_kp_reuse" };
 		if a.ok == Some(false) {
 			rep.probe("c03.failed_attempts", 1);
@@ -60,8 +68,21 @@ pub fn check(r: &RunResult, rep: &mut Report) {
 		if a.ok == Some(false) && b.matches {
 			let downloaded = downloaded_in(w, a);
 			if !downloaded && (e.crt_hash != b.crt_hash || e.pk_hash != b.pk_hash) {
-				let what = if e.pk_hash != b.pk_hash { "key_replaced" } else { "certificate_replaced" };
-				rep.add(Violation::new("C03", "pair_touched_by_failed_attempt", what, &phase, format!("{} the attempt failed at {} before any certificate was downloaded", kp_s, phase)));
+				let what = if e.pk_hash != b.pk_hash {
+					"key_replaced"
+				} else {
+					"certificate_replaced"
+				};
+				rep.add(Violation::new(
+					"C03",
+					"pair_touched_by_failed_attempt",
+					what,
+					&phase,
+					format!(
+						"{} the attempt failed at {} before any certificate was downloaded",
+						kp_s, phase
+					),
+				));
 			}
 		}
 	}
@@ -79,7 +100,9 @@ fn downloaded_in(w: &super::super::world::World, a: &common::Attempt) -> bool {
 			Ev::NetDeliver { tx, class, .. } if class == "certificate" => {
 				cert_txs.insert(*tx);
 			}
-			Ev::NetReply { tx, status, err, .. } => {
+			Ev::NetReply {
+				tx, status, err, ..
+			} => {
 				if cert_txs.contains(tx) && err.is_none() && *status >= 200 && *status < 300 {
 					return true;
 				}
